@@ -477,6 +477,16 @@ pub fn run(pool: &[KeyInfo], s: &Scenario) -> Outcome {
     for w in top_events_in_order.windows(2) {
         let (prev, cur) = (&w[0], &w[1]);
         let link = std::fs::read_to_string(cwd.join(format!("{}.link", cur))).ok().and_then(|t| serde_json::from_str::<Metablock>(&t).ok());
+        let prev_link = std::fs::read_to_string(cwd.join(format!("{}.link", prev))).ok().and_then(|t| serde_json::from_str::<Metablock>(&t).ok());
+        if let (Some(Metablock { metadata: MetadataWrapper::Link(l), .. }), Some(Metablock { metadata: MetadataWrapper::Link(pl), .. })) = (&link, &prev_link) {
+            // nothing but the verifier's writing of `<prev>.link` happens between the two commands: apart
+            // from that file, what one inspection leaves is what the next one finds
+            let skip = format!("{}.link", prev);
+            let differs = l.materials.iter().filter(|(k, _)| k.value() != skip).ne(pl.products.iter().filter(|(k, _)| k.value() != skip));
+            if differs {
+                inspection_material_faults.push(format!("the materials recorded for inspection {} are not the files inspection {} left behind", cur, prev));
+            }
+        }
         if let Some(Metablock { metadata: MetadataWrapper::Link(l), .. }) = link {
             let key = VirtualTargetPath::new(format!("{}.link", prev)).unwrap();
             match (l.materials.get(&key), std::fs::read(cwd.join(format!("{}.link", prev)))) {
@@ -510,6 +520,35 @@ pub fn run(pool: &[KeyInfo], s: &Scenario) -> Outcome {
             (true, Some(st), Some(l)) => runs.push_str(&format!(" {} {}", st, enc_real_link(&l))),
             (true, Some(st), None) => runs.push_str(&format!(" {} {} 0 0 -", st, hexs(&i.name))),
             (true, None, _) => runs.push_str(&format!(" 0 {} 0 0 -", hexs(&i.name))),
+        }
+    }
+    // the products recorded for the last top-level inspection are the files as they are now (only its
+    // own link file was written since): every file with its digest, and nothing else
+    if let Some(last) = top_events_in_order.last() {
+        let link = std::fs::read_to_string(cwd.join(format!("{}.link", last))).ok().and_then(|t| serde_json::from_str::<Metablock>(&t).ok());
+        if let Some(Metablock { metadata: MetadataWrapper::Link(l), .. }) = link {
+            fn walk(dir: &Path, rel: &str, out: &mut BTreeMap<String, Vec<u8>>) {
+                if let Ok(rd) = std::fs::read_dir(dir) {
+                    for e in rd.flatten() {
+                        let name = e.file_name().to_string_lossy().to_string();
+                        let r = if rel.is_empty() { name.clone() } else { format!("{}/{}", rel, name) };
+                        let p = e.path();
+                        if p.is_dir() {
+                            walk(&p, &r, out);
+                        } else if let Ok(b) = std::fs::read(&p) {
+                            out.insert(r, b);
+                        }
+                    }
+                }
+            }
+            let mut disk = BTreeMap::new();
+            walk(&cwd, "", &mut disk);
+            disk.remove(&format!("{}.link", last));
+            let recorded: BTreeMap<String, String> = l.products.iter().filter(|(k, _)| k.value() != format!("{}.link", last)).filter_map(|(k, d)| d.get(&in_toto::crypto::HashAlgorithm::Sha256).map(|h| (k.value().to_string(), h.to_string()))).collect();
+            let actual: BTreeMap<String, String> = disk.iter().map(|(k, b)| (k.clone(), hex(ring::digest::digest(&ring::digest::SHA256, b).as_ref()))).collect();
+            if recorded != actual {
+                inspection_material_faults.push(format!("the products recorded for inspection {} are not the files its command left behind", last));
+            }
         }
     }
     let ev_tok: Vec<String> = events.iter().map(|e| {
